@@ -371,8 +371,8 @@ def effsOf : RState → List Nat
   | .show e _ _ _ _ _ inner => e :: effsOf inner
   | .forK e _ _ _ _ => [e]
   | .scope _ _ _ inner => effsOf inner
-  | .rows e _ _ _ _ items => e :: effsOf items
-  | .rowCons _ r rest => effsOf r ++ effsOf rest
+  | .rows e _ _ _ _ _ items => e :: effsOf items
+  | .rowCons _ _ r rest => effsOf r ++ effsOf rest
   | .rowNil => []
 
 theorem GoodAttr.ext {K : Nat} {A : Nat → Prop} {st st' : St} (hi : RInv K st) (hx : Ext K A st st') :
@@ -437,7 +437,7 @@ theorem Good.ext {K : Nat} {A : Nat → Prop} {st st' : St} (hi : RInv K st) (hx
       · intro hl; exact ihb inner (h.2.2.2.2.2 hl) (fun e he => ha e (by simp [effsOf, he]))
   | «show» c a b _ _ => intro t h _; cases t <;> simp only [Good] at h
   | scope sid d kid _ => intro t h _; cases t <;> simp only [Good] at h
-  | forRows sel lists row _ => intro t h _; cases t <;> simp only [Good] at h
+  | forRows en sel lists row _ => intro t h _; cases t <;> simp only [Good] at h
   | forKeyed sel lists =>
     intro t h ha
     cases t <;> simp only [Good] at h ⊢
@@ -533,7 +533,7 @@ theorem Good.serialize_eq {K : Nat} {st : St} :
         exact ihb inner (h.2.2.2.2.2 hl) (fun e he => hn e (by simp [effsOf, he]))
   | «show» c a b _ _ => intro t h _; cases t <;> simp only [Good] at h
   | scope sid d kid _ => intro t h _; cases t <;> simp only [Good] at h
-  | forRows sel lists row _ => intro t h _; cases t <;> simp only [Good] at h
+  | forRows en sel lists row _ => intro t h _; cases t <;> simp only [Good] at h
   | forKeyed sel lists =>
     intro t h hn
     cases t <;> simp only [Good] at h
@@ -733,7 +733,7 @@ def View.core : View → Bool
   | .show _ _ _ => false
   | .forKeyed _ _ => true
   | .scope _ _ _ => false
-  | .forRows _ _ _ => false
+  | .forRows _ _ _ _ => false
 
 structure Built (K : Nat) (st : St) (v : View) (t : RState) (st' : St) : Prop where
   inv : RInv K st'
@@ -880,7 +880,7 @@ theorem build_spec {K : Nat} : ∀ (v : View) (st : St), RInv K st → v.wf K = 
         omega
   | «show» c a b _ _ => intro st _ _ hc; simp [View.core] at hc
   | scope sid d kid _ => intro st _ _ hc; simp [View.core] at hc
-  | forRows sel lists row _ => intro st _ _ hc; simp [View.core] at hc
+  | forRows en sel lists row _ => intro st _ _ hc; simp [View.core] at hc
   | forKeyed sel lists =>
     intro st hi hw _
     obtain ⟨hsel, hl⟩ := wf_forKeyed hw
@@ -1081,7 +1081,7 @@ theorem Good.map {K : Nat} {st st' : St} :
       · intro hl; exact ihb inner (h.2.2.2.2.2 hl) (fun e x cur he => hm e x cur (by simp [effsOf, he]))
   | «show» c a b _ _ => intro t h _; cases t <;> simp only [Good] at h
   | scope sid d kid _ => intro t h _; cases t <;> simp only [Good] at h
-  | forRows sel lists row _ => intro t h _; cases t <;> simp only [Good] at h
+  | forRows en sel lists row _ => intro t h _; cases t <;> simp only [Good] at h
   | forKeyed sel lists =>
     intro t h hm
     cases t <;> simp only [Good] at h ⊢
@@ -1164,7 +1164,7 @@ theorem Good.effOK {K : Nat} {st : St} :
         | false => exact ihb inner (h.2.2.2.2.2 hl) e he
   | «show» c a b _ _ => intro t h _ _; cases t <;> simp only [Good] at h
   | scope sid d kid _ => intro t h _ _; cases t <;> simp only [Good] at h
-  | forRows sel lists row _ => intro t h _ _; cases t <;> simp only [Good] at h
+  | forRows en sel lists row _ => intro t h _ _; cases t <;> simp only [Good] at h
   | forKeyed sel lists =>
     intro t h e he
     cases t <;> simp only [Good] at h
